@@ -9,10 +9,16 @@ import "strings"
 
 // ---------------------------------------------------------------- C03 / C04 on raw bytes
 
-// VH_bytes [L]: every byte string of length L through the three entry points.
+// VH_bytes [L shard]: every byte string of length L through the three entry points. shard
+// (0..15, or -1 for all) restricts the first byte to one sixteenth of its range, so that the
+// work spreads over the cores.
 func VH_bytes(a []string) {
 	L := vAtoi(a[0])
 	buf := vBytes(L, "buf")
+	if sh := vAtoi(a[1]); sh >= 0 && L > 0 {
+		vAssume(buf[0] >= byte(16*sh))
+		vAssume(buf[0] <= byte(16*sh+15))
+	}
 	vNote("text", vShow(buf))
 	ok, inv := ValidateLicenses([]string{buf})
 	vAssert(ok == (len(inv) == 0), "flag-iff-none-invalid")
